@@ -145,7 +145,7 @@ theorem akey_mkPlain (c : Cls) (a b d : Nat) : ∃ k, akey (mkPlain c a b d) = .
   · exact ⟨.sem (necessaryRelease [a, b, d], Sent.inf), by
       simp [akey, mkPlain, semKey, truthyStr, Except.map, bind, Except.bind, pure, Except.pure]⟩
   · exact ⟨.pkg (0, necessaryRelease [a, b, d], Sent.inf, Sent.ninf, Sent.inf, Sent.ninf), by
-      simp [akey, mkPlain, pkgKey, truthyStr, Except.map, bind, Except.bind, pure, Except.pure]⟩
+      simp [akey, mkPlain, pkgKey, pkgPre, pkgPost, pkgDev, pkgLoc, truthyStr, Except.map, bind, Except.bind, pure, Except.pure]⟩
 
 theorem akey_caretPair (c : Cls) (w : Obj) : ∃ k, akey (caretPair c w) = .ok k := by
   unfold caretPair; split
